@@ -1588,6 +1588,15 @@ def _gen_function(kv, sections, repo, res: UnitResult, variant) -> list:
     btoks = lex(body_now); bm = match_brackets(btoks); bs = sig(btoks)
     loops = _loops(btoks, bs, bm, 0, len(bs))
     closures = _closure_spans(btoks, bs, bm, 0, len(bs))
+    # loops generated by R19 (`any` / `all`) that the template gives no contract for get a default one (bounds + termination),
+    # so that an `any`/`all` introduced by a code change is verified as an opaque boolean instead of stopping Verus
+    targeted = set(arg for kind, arg, lab, optional in inserts if kind == "loop")
+    for li, (lk, lo, lc) in enumerate(loops, 1):
+        hdr = body_now[btoks[bs[lk]].start:btoks[lo].start]
+        mm_ = re.search(r"while (i__\d+) < (s__\d+)\.len\(\) /\*@(any|all)\*/", hdr)
+        if mm_ and li not in targeted:
+            iv, sv = mm_.group(1), mm_.group(2)
+            inserts.append(("loop", li, [GenLine("    invariant %s <= %s.len(), decreases %s.len() - %s," % (iv, sv, sv, iv), ("gen", "default-loop-contract"))], False))
     # we insert text at byte offsets -> convert to (line, col) and split lines
     ins_at: list[tuple[int, list]] = []   # (byte offset in body_now, genlines)
     for kind, arg, lab, optional in inserts:
